@@ -9,6 +9,7 @@ from pv.loops import enclosing_loops, loop_shape
 from checks import lehmann as lh
 from checks.lehmann import fld, THIS
 from checks.c07 import deconv
+from checks.c20 import fact_str
 
 DMP = "Pomerol::DensityMatrixPart"
 DM = "Pomerol::DensityMatrix"
@@ -49,35 +50,43 @@ def body(chk, db, cfgname):
             a = lh.strip_cast(a)
             if a[0] == "mcall" and a[1] == DM + "::getPart" and a[2] == dmk:
                 used.add(rw(deconv(a[3])))
-        # governing if: innermost ancestor whose condition mentions isRetained
-        guard = None
-        for a_ in f.ancestors(N):
-            an = f.nodes[a_]
-            if an["k"] == "if" and key_contains(ctx.key(an["c"]), lambda y: y[0] == "mcall" and y[1] == DM + "::isRetained"):
-                guard = a_
-                break
+        # "a part is skipped only if every block it would use is discarded", decided per path through one iteration of the
+        # stripe loop: take the paths that are compatible with the conditions under which the part is created (same stripe)
+        # but do not create it; on each of them every used block must have tested as not retained.
+        from pv import paths as P
         site = owner + "::prepare:retained-guard"
-        if guard is None:
-            r1.bad(site, f.loc(N), "parts are created without consulting the retained flags (truncation has no effect)", cfgname) if False else \
-                r1.ok(site, f.loc(N), "no truncation guard: every stripe is kept (eps = 0 behaviour)", cfgname)
+        isret = lambda y: y[0] == "mcall" and y[1] == DM + "::isRetained"
+        if not any(n_["k"] == "call" and strip_targs(n_.get("cname") or "") == DM + "::isRetained" for _, n_ in f.walk(f.body)):
+            r1.ok(site, f.loc(N), "no truncation guard: every stripe is kept (eps = 0 behaviour)", cfgname)
             continue
-        ds = disjuncts(f, f.nodes[guard]["c"])
-        tested = set()
-        okform = True
-        for d in ds:
-            k = ctx.key(d)
-            if k[0] == "mcall" and k[1] == DM + "::isRetained" and k[2] == dmk:
-                tested.add(rw(deconv(k[3])))
-            else:
-                okform = False
-        then_has = any(j == N for j, _ in f.walk(f.nodes[guard]["then"]))
-        if okform and then_has and tested == used and used:
-            r1.ok(site, f.loc(guard), "created iff isRetained(b) for some b in the %d blocks whose density-matrix parts are used" % len(used), cfgname)
-        elif not okform:
-            r1.bad(site, f.loc(guard), "the retention guard is not a plain disjunction of DM.isRetained(block) tests (e.g. '&&' drops parts that still have a retained block)", cfgname)
+        Ls = enclosing_loops(f, N)
+        if not Ls:
+            raise AnalysisBroken("%s::prepare: part creation is not inside the stripe loop" % owner)
+        hdr, plist = P.loop_body_paths(f, Ls[-1])
+        ctxfacts = {x for x in fa if not (x[0] in ("true", "false") and key_contains(x[1], isret))}
+        npos = f.cfg.pos1(N)
+        missing = None
+        nskip = 0
+        for path in plist:
+            if npos[0] in path[1:]:
+                continue
+            pf = P.path_facts(f, ctx, path)
+            if not P.feasible(pf | ctxfacts):
+                continue
+            nskip += 1
+            prw = lh.rw_facts(pf | ctxfacts)
+            notret = {prw(deconv(x[1][3])) for x in pf if x[0] == "false" and x[1][0] == "mcall" and x[1][1] == DM + "::isRetained" and x[1][2] == dmk}
+            need = {prw(u) for u in used}
+            if not need <= notret:
+                lack = sorted(need - notret, key=repr)
+                missing = "a stripe can be skipped although block %s was not found discarded (tests on the skipping path: %s)" % (
+                    ", ".join(lh.short(x) if x[0] == "field" else str(x[-1]) for x in lack), ", ".join(sorted(fact_str(x) for x in pf if x[0] in ("true", "false") and key_contains(x[1], isret))) or "none")
+        if nskip == 0:
+            r1.ok(site, f.loc(N), "the part is created for every matching stripe (no path skips it)", cfgname)
+        elif missing:
+            r1.bad(site, f.loc(N), missing + ": a contribution above the tolerance is dropped", cfgname)
         else:
-            r1.bad(site, f.loc(guard), "the retention guard tests blocks {%s} but the part uses blocks {%s}: a stripe with a retained block is skipped (or the guard looks at an unrelated block)" % (
-                ", ".join(sorted(lh.short(x) if x[0] == "field" else str(x[-1]) for x in tested)), ", ".join(sorted(str(x[-1]) for x in used))), cfgname)
+            r1.ok(site, f.loc(N), "a matching stripe is skipped only on paths where isRetained is false for all %d blocks whose density-matrix parts are used (%d skipping paths)" % (len(used), nskip), cfgname)
     # two-particle GF: flag loop over LeftIndices[0..3]
     f = db.fn("Pomerol::TwoParticleGF::prepare", nparams=0)
     ctx = Ctx(f, db)
